@@ -1,6 +1,9 @@
 import Marwood.Lemmas.TransformSoundPlain
 import Marwood.Lemmas.TransformFuel
 import Marwood.Lemmas.TransformAccept
+import Marwood.Lemmas.TransformEllClasses
+import Marwood.Lemmas.TransformTermTheorem
+import Marwood.Lemmas.TransformEllAcceptTmpl
 /-!
 # C17 — syntax-rules is sound where supported and always terminates
 
@@ -21,8 +24,19 @@ transformer and use. What is proved:
   followed by a fixed tail, i.e. the `len() + 2` hand-off; sub-patterns under an ellipsis; literals,
   `_`, custom ellipsis): the rule that fires is R7RS's first matching rule, with the explicit
   decidable guard `GapFree` (`Spec.Match.zeroRepTail`) for the completeness half.
-* NOT proved: for templates that contain an ellipsis, that the expansion equals the instantiation
-  (`expand` with the per-variable cursors against `Spec.Match.inst`); carried by the correspondence.
+* `soundness_depthOne_partial` (general class `DepthOne`: ellipsis depth ≤ 1 anywhere in the patterns,
+  templates made of groups `U ...` with `U` ellipsis-free) and its instances
+  `soundness_trailingEllipsis_partial` (`(_ p1 … pn x ...)`, no guard needed),
+  `soundness_ellipsisThenTail_partial` (`(_ p1 … pn x ... q1 … qm)`, guard `GapFree`),
+  `soundness_subpatternEllipsis_partial` (`(_ p1 … pn P ... q1 … qm)`, guard `GapFree`): the expansion
+  equals R7RS's instantiation (`expand` with the per-variable cursors against `Spec.Match.inst`), or
+  the spec says `mismatch` (unequal counts, the excluded uses); `soundness_depthOne_exact_partial`
+  states it with the explicit decidable hypothesis `CountsAgree`.
+* `accepted_depthOne`: every transformer `try_new` accepts is in `DepthOne` (nested ellipses, depth 2,
+  are rejected at definition: `definition_check_rejects_nested_ellipsis`), hence
+  `soundness_gapfree_partial` / `soundness_gapfree_exact_partial`: T17.1 for EVERY accepted transformer
+  and every use outside the known gap `GapFree` — the only excluded inputs are those of the known
+  finding.
 
 ## T17.2 termination
 * `patternMatch_terminates` — the matcher terminates on **every** input (any pattern, any ellipsis,
@@ -30,6 +44,9 @@ transformer and use. What is proved:
 * `expand_diverges_without_definition_check` — the non-termination of the pinned `expand` on a
   template `(a ...)` whose `a` is not ellipsis-bound, for every fuel (the model of `expand` is the
   pinned loop); `definition_check_rejects_diverging_template`: fix ff58560 rejects that definition.
+* `expand_terminates` / `transform_terminates` / `transform_terminates_driver_fuel` — for every
+  transformer accepted by `try_new`, `expand` with `n` bindings does not run out of fuel
+  `expandFuel T n = 2·(n+1)·|T|`, and `transform` does not run out of the driver's `useFuel`.
 -/
 namespace Marwood.Proofs.C17
 open Marwood Marwood.Transform Marwood.Spec.Match
@@ -296,5 +313,376 @@ def loopDef : Datum :=
 /-- since fix ff58560 the definition that made `expand` loop is rejected -/
 theorem definition_check_rejects_diverging_template :
     Transform.tryNew (defFuel loopDef) loopDef = .err .syntax := by decide
+
+/-! ## T17.1, classes with ellipsis -/
+
+/-- class predicate of one rule: the pattern body is a proper list whose items satisfy `bodyPred`
+    (one of `bodyTrailing`, `bodyVarTail`, `bodySubTail`), the template is in class `tP` for the
+    ellipsis variables of the pattern -/
+def classRule (bodyPred : Text → List Datum → Bool) (c : Ctx) (r : Pattern × Datum) : Bool :=
+  match r.1.expr with
+  | .pair _ body =>
+    endsInNil body && bodyPred c.ellipsis (iterList body) && tP c.ellipsis (ellVars c body) r.2
+  | _ => false
+
+/-- class 2 of T17.1 (decidable): every pattern is `(_ p1 … pn x <ellipsis>)` -/
+def TrailingEllipsis (t : Transform) : Bool := t.rules.all (classRule bodyTrailing (ctxOf t))
+/-- class 3 (decidable): every pattern is `(_ p1 … pn x <ellipsis> q1 … qm)` -/
+def EllipsisThenTail (t : Transform) : Bool := t.rules.all (classRule bodyVarTail (ctxOf t))
+/-- class 4 (decidable): every pattern is `(_ p1 … pn P <ellipsis> q1 … qm)`, `P` a sub-pattern -/
+def SubpatternEllipsis (t : Transform) : Bool := t.rules.all (classRule bodySubTail (ctxOf t))
+/-- the general class (decidable): ellipsis depth ≤ 1 anywhere in the patterns (also inside nested
+    lists), templates in class `tP` -/
+def DepthOne (t : Transform) : Bool := t.rules.all (ruleD1 (ctxOf t))
+
+theorem classRule_d1 (bodyPred : Text → List Datum → Bool)
+    (hp : ∀ es items, bodyPred es items = true → bodySubTail es items = true)
+    (c : Ctx) (r : Pattern × Datum) (h : classRule bodyPred c r = true) : ruleD1 c r = true := by
+  unfold classRule at h
+  unfold ruleD1
+  split at h
+  · rename_i kw body heq
+    simp only [heq]
+    simp only [Bool.and_eq_true] at h ⊢
+    refine ⟨?_, h.2⟩
+    have := nn_of_subTail c.ellipsis _ (hp _ _ h.1.2)
+    rw [← endsInNil_ofList h.1.1] at this
+    exact this
+  · cases h
+
+theorem subpatternEllipsis_depthOne {t : Transform} (h : SubpatternEllipsis t = true) : DepthOne t = true := by
+  simp only [SubpatternEllipsis, DepthOne, List.all_eq_true] at h ⊢
+  exact fun r hr => classRule_d1 _ (fun _ _ h => h) _ r (h r hr)
+
+theorem ellipsisThenTail_depthOne {t : Transform} (h : EllipsisThenTail t = true) : DepthOne t = true := by
+  simp only [EllipsisThenTail, DepthOne, List.all_eq_true] at h ⊢
+  exact fun r hr => classRule_d1 _ (fun es items h => bodyVarTail_subTail es items h) _ r (h r hr)
+
+theorem trailingEllipsis_depthOne {t : Transform} (h : TrailingEllipsis t = true) : DepthOne t = true := by
+  simp only [TrailingEllipsis, DepthOne, List.all_eq_true] at h ⊢
+  exact fun r hr => classRule_d1 _
+    (fun es items h => bodyVarTail_subTail es items (bodyTrailing_varTail es items h)) _ r (h r hr)
+
+/-- **T17.1 for ellipsis depth ≤ 1** (general class; literals, `_`, data, a custom ellipsis name,
+    ellipses inside nested lists, several groups per template list): with the guard `GapFree` every
+    expansion is R7RS's — some rule `i` matches per R7RS, no earlier rule matches per R7RS, and the
+    expansion is the instantiation of rule `i`'s template, unless the specification answers
+    `mismatch` (the ellipsis variables of one sub-template matched different numbers of items). -/
+theorem soundness_depthOne_partial (f0 : Nat) (d : Datum) (t : Transform) (fuel : Nat) (u e : Datum)
+    (hdef : Transform.tryNew f0 d = .ok t) (hclass : DepthOne t = true)
+    (hgap : GapFree (ctxOf t) (specRules t) u = true)
+    (huse : t.transform fuel u = .ok e) :
+    ∃ s : Setup, t.ellipsis = s.ell ∧ t.literals = s.lits ∧ Sound s.ctx (specRules t) u e := by
+  obtain ⟨s, hte, htl, hrules⟩ := Transform.tryNew_ok hdef
+  refine ⟨s, hte, htl, ?_⟩
+  have hctx := ctxOf_eq s t hte htl
+  rw [hctx] at hgap
+  simp only [DepthOne, hctx, List.all_eq_true] at hclass
+  unfold Transform.transform at huse
+  split at huse
+  · cases huse
+  · refine transformRules_d1 s fuel f0 t u hte htl t.rules e
+      (fun r hr => ⟨hrules r hr, hclass r hr⟩) ?_ huse
+    intro r hr
+    simp only [GapFree, List.all_eq_true] at hgap
+    have := hgap ⟨r.1.expr, r.2⟩ (by simp only [specRules, List.mem_map]; exact ⟨r, hr, rfl⟩)
+    simpa using this
+
+
+/-- **T17.1, class "sub-pattern under an ellipsis, then a fixed tail"** `(_ p1 … pn P <ell> q1 … qm)`
+    (under `GapFree`) -/
+theorem soundness_subpatternEllipsis_partial (f0 : Nat) (d : Datum) (t : Transform) (fuel : Nat) (u e : Datum)
+    (hdef : Transform.tryNew f0 d = .ok t) (hclass : SubpatternEllipsis t = true)
+    (hgap : GapFree (ctxOf t) (specRules t) u = true)
+    (huse : t.transform fuel u = .ok e) :
+    ∃ s : Setup, t.ellipsis = s.ell ∧ t.literals = s.lits ∧ Sound s.ctx (specRules t) u e :=
+  soundness_depthOne_partial f0 d t fuel u e hdef (subpatternEllipsis_depthOne hclass) hgap huse
+
+/-- **T17.1, class "ellipsis followed by a fixed tail"** `(_ p1 … pn x <ell> q1 … qm)`, the
+    `len() + 2` hand-off (under `GapFree`) -/
+theorem soundness_ellipsisThenTail_partial (f0 : Nat) (d : Datum) (t : Transform) (fuel : Nat) (u e : Datum)
+    (hdef : Transform.tryNew f0 d = .ok t) (hclass : EllipsisThenTail t = true)
+    (hgap : GapFree (ctxOf t) (specRules t) u = true)
+    (huse : t.transform fuel u = .ok e) :
+    ∃ s : Setup, t.ellipsis = s.ell ∧ t.literals = s.lits ∧ Sound s.ctx (specRules t) u e :=
+  soundness_depthOne_partial f0 d t fuel u e hdef (ellipsisThenTail_depthOne hclass) hgap huse
+
+/-- a transformer in the trailing class never meets the `zeroRepTail` situation -/
+theorem trailingEllipsis_gapFree (s : Setup) {t : Transform} (hte : t.ellipsis = s.ell)
+    (htl : t.literals = s.lits) (h : TrailingEllipsis t = true) (u : Datum) :
+    GapFree (ctxOf t) (specRules t) u = true := by
+  have hctx := ctxOf_eq s t hte htl
+  simp only [TrailingEllipsis, hctx, List.all_eq_true] at h
+  simp only [GapFree, hctx, List.all_eq_true, specRules, List.mem_map]
+  rintro _ ⟨r, hr, rfl⟩
+  have hc := h r hr
+  unfold classRule at hc
+  split at hc
+  · rename_i kw body heq
+    simp only [Bool.and_eq_true] at hc
+    simp only [zeroRepTailRule, heq]
+    cases u with
+    | pair ukw urest =>
+      simp only
+      have := gp_trailing s _ hc.1.2 urest
+      rw [← endsInNil_ofList hc.1.1] at this
+      simp only [gp] at this
+      simp [this]
+    | _ => rfl
+  · cases hc
+
+/-- **T17.1, class "trailing ellipsis"** `(_ p1 … pn x <ell>)`: no guard needed — the matcher is
+    complete on this class, so the rule that fires is R7RS's first matching rule and the expansion
+    is its instantiation (or the use is one with unequal counts: `mismatch`). -/
+theorem soundness_trailingEllipsis_partial (f0 : Nat) (d : Datum) (t : Transform) (fuel : Nat) (u e : Datum)
+    (hdef : Transform.tryNew f0 d = .ok t) (hclass : TrailingEllipsis t = true)
+    (huse : t.transform fuel u = .ok e) :
+    ∃ s : Setup, t.ellipsis = s.ell ∧ t.literals = s.lits ∧ Sound s.ctx (specRules t) u e := by
+  obtain ⟨s, hte, htl, _⟩ := Transform.tryNew_ok hdef
+  exact soundness_depthOne_partial f0 d t fuel u e hdef (trailingEllipsis_depthOne hclass)
+    (trailingEllipsis_gapFree s hte htl hclass u) huse
+
+/-! ### the excluded uses as an explicit hypothesis -/
+
+/-- the use is not one the property excludes: the specification does not answer `mismatch`
+    (`Spec.Match.repBinds`: the ellipsis variables of one sub-template matched different numbers of
+    items). Decidable. -/
+def CountsAgree (c : Ctx) (rules : List Rule) (u : Datum) : Bool :=
+  match specExpand c rules u with
+  | .mismatch => false
+  | _ => true
+
+theorem sound_specExpand {c : Ctx} {rules : List Rule} {u e : Datum} (h : Sound c rules u e) :
+    specExpand c rules u = .ok e ∨ specExpand c rules u = .mismatch := by
+  obtain ⟨i, r, b, hi, hm, hprev, hinst⟩ := h
+  induction rules generalizing i with
+  | nil => simp at hi
+  | cons r0 rules ih =>
+    cases i with
+    | zero =>
+      simp only [List.getElem?_cons_zero, Option.some.injEq] at hi
+      subst hi
+      simp only [Spec.Match.specExpand, hm]
+      rcases hinst with h | h <;> simp [h]
+    | succ i =>
+      have h0 := hprev 0 (by omega) r0 rfl
+      simp only [Spec.Match.specExpand, h0]
+      exact ih i (by simpa using hi) (fun j hj r' hr' => hprev (j + 1) (by omega) r' (by simpa using hr'))
+
+/-- **T17.1 for ellipsis depth ≤ 1, exact form**: for a use whose ellipsis variables matched equal
+    numbers of items (`CountsAgree`) and that avoids the known gap (`GapFree`), an expansion of the
+    implementation IS the specification's expansion. -/
+theorem soundness_depthOne_exact_partial (f0 : Nat) (d : Datum) (t : Transform) (fuel : Nat) (u e : Datum)
+    (hdef : Transform.tryNew f0 d = .ok t) (hclass : DepthOne t = true)
+    (hgap : GapFree (ctxOf t) (specRules t) u = true)
+    (hcounts : CountsAgree (ctxOf t) (specRules t) u = true)
+    (huse : t.transform fuel u = .ok e) :
+    specExpand (ctxOf t) (specRules t) u = .ok e := by
+  obtain ⟨s, hte, htl, hs⟩ := soundness_depthOne_partial f0 d t fuel u e hdef hclass hgap huse
+  rw [ctxOf_eq s t hte htl] at hcounts ⊢
+  rcases sound_specExpand hs with h | h
+  · exact h
+  · simp [CountsAgree, h] at hcounts
+
+
+/-! ### the class hypotheses are satisfiable, non-trivially -/
+
+def srSym : Datum := .sym ['s','y','n','t','a','x','-','r','u','l','e','s']
+def n1 : Datum := .num (.fix 1)
+def n2 : Datum := .num (.fix 2)
+def n3 : Datum := .num (.fix 3)
+def n4 : Datum := .num (.fix 4)
+def n5 : Datum := .num (.fix 5)
+
+/-- `(define-syntax m (syntax-rules () ((_ f x ...) (f (q x) ...))))` -/
+def trailDef : Datum :=
+  Datum.ofList [.sym ['d'], .sym ['m'], Datum.ofList [srSym, .nil,
+    Datum.ofList [Datum.ofList [.sym ['_'], .sym ['f'], .sym ['x'], defaultEllipsis],
+                  Datum.ofList [.sym ['f'], Datum.ofList [.sym ['q'], .sym ['x']], defaultEllipsis]]]]
+
+/-- `(m g 1 2)` expands to `(g (q 1) (q 2))`; `(m g)` to `(g)` -/
+example : ∃ t, Transform.tryNew (defFuel trailDef) trailDef = .ok t ∧ TrailingEllipsis t = true ∧
+    t.transform 100 (Datum.ofList [.sym ['m'], .sym ['g'], n1, n2])
+      = .ok (Datum.ofList [.sym ['g'], Datum.ofList [.sym ['q'], n1], Datum.ofList [.sym ['q'], n2]]) ∧
+    t.transform 100 (Datum.ofList [.sym ['m'], .sym ['g']]) = .ok (Datum.ofList [.sym ['g']]) :=
+  ⟨_, rfl, by decide +kernel, by decide +kernel, by decide +kernel⟩
+
+/-- `(define-syntax m (syntax-rules () ((_ x ... y) (y x ...)) ((_) 0)))` -/
+def tailDef : Datum :=
+  Datum.ofList [.sym ['d'], .sym ['m'], Datum.ofList [srSym, .nil,
+    Datum.ofList [Datum.ofList [.sym ['_'], .sym ['x'], defaultEllipsis, .sym ['y']],
+                  Datum.ofList [.sym ['y'], .sym ['x'], defaultEllipsis]],
+    Datum.ofList [Datum.ofList [.sym ['_']], .num (.fix 0)]]]
+
+/-- `(m 1 2 3)` goes through the hand-off and expands to `(3 1 2)` -/
+example : ∃ t, Transform.tryNew (defFuel tailDef) tailDef = .ok t ∧ EllipsisThenTail t = false ∧
+    DepthOne t = true ∧
+    GapFree (ctxOf t) (specRules t) (Datum.ofList [.sym ['m'], n1, n2, n3]) = true ∧
+    CountsAgree (ctxOf t) (specRules t) (Datum.ofList [.sym ['m'], n1, n2, n3]) = true ∧
+    t.transform 100 (Datum.ofList [.sym ['m'], n1, n2, n3]) = .ok (Datum.ofList [n3, n1, n2]) :=
+  ⟨_, rfl, by decide +kernel, by decide +kernel, by decide +kernel, by decide +kernel, by decide +kernel⟩
+
+/-- `(define-syntax m (syntax-rules () ((_ x ... y) (y x ...))))` -/
+def tailDef1 : Datum :=
+  Datum.ofList [.sym ['d'], .sym ['m'], Datum.ofList [srSym, .nil,
+    Datum.ofList [Datum.ofList [.sym ['_'], .sym ['x'], defaultEllipsis, .sym ['y']],
+                  Datum.ofList [.sym ['y'], .sym ['x'], defaultEllipsis]]]]
+
+example : ∃ t, Transform.tryNew (defFuel tailDef1) tailDef1 = .ok t ∧ EllipsisThenTail t = true ∧
+    GapFree (ctxOf t) (specRules t) (Datum.ofList [.sym ['m'], n1, n2, n3]) = true ∧
+    t.transform 100 (Datum.ofList [.sym ['m'], n1, n2, n3]) = .ok (Datum.ofList [n3, n1, n2]) :=
+  ⟨_, rfl, by decide +kernel, by decide +kernel, by decide +kernel⟩
+
+/-- `(define-syntax m (syntax-rules () ((_ (a b) ... z) ((b ...) (a z) ...))))` -/
+def subDef : Datum :=
+  Datum.ofList [.sym ['d'], .sym ['m'], Datum.ofList [srSym, .nil,
+    Datum.ofList [Datum.ofList [.sym ['_'], Datum.ofList [.sym ['a'], .sym ['b']], defaultEllipsis, .sym ['z']],
+                  Datum.ofList [Datum.ofList [.sym ['b'], defaultEllipsis],
+                                Datum.ofList [.sym ['a'], .sym ['z']], defaultEllipsis]]]]
+
+/-- `(m (1 2) (3 4) 5)` expands to `((2 4) (1 5) (3 5))` -/
+example : ∃ t, Transform.tryNew (defFuel subDef) subDef = .ok t ∧ SubpatternEllipsis t = true ∧
+    GapFree (ctxOf t) (specRules t)
+      (Datum.ofList [.sym ['m'], Datum.ofList [n1, n2], Datum.ofList [n3, n4], n5]) = true ∧
+    t.transform 100 (Datum.ofList [.sym ['m'], Datum.ofList [n1, n2], Datum.ofList [n3, n4], n5])
+      = .ok (Datum.ofList [Datum.ofList [n2, n4], Datum.ofList [n1, n5], Datum.ofList [n3, n5]]) :=
+  ⟨_, rfl, by decide +kernel, by decide +kernel, by decide +kernel⟩
+
+/-- `(define-syntax m (syntax-rules ::: (else) ((_ _ (k v) ::: else w) ((k :::) w (v :::)))))`:
+    a custom ellipsis, a literal and `_` -/
+def litDef : Datum :=
+  Datum.ofList [.sym ['d'], .sym ['m'], Datum.ofList [srSym, .sym [':',':',':'],
+    Datum.ofList [.sym ['e','l','s','e']],
+    Datum.ofList [Datum.ofList [.sym ['_'], .sym ['_'], Datum.ofList [.sym ['k'], .sym ['v']], .sym [':',':',':'],
+                                .sym ['e','l','s','e'], .sym ['w']],
+                  Datum.ofList [Datum.ofList [.sym ['k'], .sym [':',':',':']], .sym ['w'],
+                                Datum.ofList [.sym ['v'], .sym [':',':',':']]]]]]
+
+/-- `(m 9 (1 2) (3 4) else 5)` expands to `((1 3) 5 (2 4))`; `...` is an ordinary identifier here -/
+example : ∃ t, Transform.tryNew (defFuel litDef) litDef = .ok t ∧ SubpatternEllipsis t = true ∧
+    GapFree (ctxOf t) (specRules t)
+      (Datum.ofList [.sym ['m'], .num (.fix 9), Datum.ofList [n1, n2], Datum.ofList [n3, n4], .sym ['e','l','s','e'], n5]) = true ∧
+    t.transform 100
+      (Datum.ofList [.sym ['m'], .num (.fix 9), Datum.ofList [n1, n2], Datum.ofList [n3, n4], .sym ['e','l','s','e'], n5])
+      = .ok (Datum.ofList [Datum.ofList [n1, n3], n5, Datum.ofList [n2, n4]]) :=
+  ⟨_, rfl, by decide +kernel, by decide +kernel, by decide +kernel⟩
+
+/-- `(define-syntax m (syntax-rules () ((_ (a ...) (b ...)) ((a b) ...))))`: ellipses inside nested
+    lists — in `DepthOne` but in none of the three list classes -/
+def zipDef : Datum :=
+  Datum.ofList [.sym ['d'], .sym ['m'], Datum.ofList [srSym, .nil,
+    Datum.ofList [Datum.ofList [.sym ['_'], Datum.ofList [.sym ['a'], defaultEllipsis],
+                                Datum.ofList [.sym ['b'], defaultEllipsis]],
+                  Datum.ofList [Datum.ofList [.sym ['a'], .sym ['b']], defaultEllipsis]]]]
+
+/-- `(m (1 2) (3 4))` expands to `((1 3) (2 4))`; `(m (1 2) (3))` is an excluded use (the spec says
+    `mismatch`; the implementation truncates to `((1 3))`) -/
+example : ∃ t, Transform.tryNew (defFuel zipDef) zipDef = .ok t ∧ DepthOne t = true ∧
+    SubpatternEllipsis t = false ∧
+    GapFree (ctxOf t) (specRules t) (Datum.ofList [.sym ['m'], Datum.ofList [n1, n2], Datum.ofList [n3, n4]]) = true ∧
+    CountsAgree (ctxOf t) (specRules t) (Datum.ofList [.sym ['m'], Datum.ofList [n1, n2], Datum.ofList [n3, n4]]) = true ∧
+    t.transform 100 (Datum.ofList [.sym ['m'], Datum.ofList [n1, n2], Datum.ofList [n3, n4]])
+      = .ok (Datum.ofList [Datum.ofList [n1, n3], Datum.ofList [n2, n4]]) ∧
+    CountsAgree (ctxOf t) (specRules t) (Datum.ofList [.sym ['m'], Datum.ofList [n1, n2], Datum.ofList [n3]]) = false ∧
+    t.transform 100 (Datum.ofList [.sym ['m'], Datum.ofList [n1, n2], Datum.ofList [n3]])
+      = .ok (Datum.ofList [Datum.ofList [n1, n3]]) :=
+  ⟨_, rfl, by decide +kernel, by decide +kernel, by decide +kernel, by decide +kernel, by decide +kernel, by decide +kernel, by decide +kernel⟩
+
+/-! ## T17.2: `expand` and `transform` terminate for every accepted transformer -/
+
+/-- **`expand` terminates for every transformer accepted by `try_new`**: for every rule, with
+    `n` bindings in the environment, fuel `expandFuel T n = 2·(n+1)·|T|` is enough — `expand` never
+    answers fuel-exhausted (contrast `expand_diverges_without_definition_check`). -/
+theorem expand_terminates (f0 : Nat) (d : Datum) (t : Transform)
+    (hdef : Transform.tryNew f0 d = .ok t) (r : Pattern × Datum) (hr : r ∈ t.rules)
+    (B : Bindings) (fuel : Nat) (hf : expandFuel r.2 B.length ≤ fuel) :
+    expand t.ellipsis r.1 fuel r.2 (PEnv.new r.1 B) ≠ .fuel := by
+  obtain ⟨s, _, _, hall⟩ := accepted_build hdef
+  obtain ⟨_, _, _, _, _, _, hsub⟩ := hall r hr
+  exact expand_terminates_accepted f0 d t hdef r hr hsub B fuel hf
+
+/-- **`transform` terminates for every accepted transformer and every use** with fuel
+    `max (3·|u| + 1) (max over the rules of expandFuel template |u|)` -/
+theorem transform_terminates (f0 : Nat) (d : Datum) (t : Transform)
+    (hdef : Transform.tryNew f0 d = .ok t) (u : Datum) (fuel : Nat)
+    (hf1 : 3 * dsize u + 1 ≤ fuel) (hf2 : ∀ r ∈ t.rules, expandFuel r.2 (dsize u) ≤ fuel) :
+    t.transform fuel u ≠ .fuel := by
+  obtain ⟨s, _, _, hall⟩ := accepted_build hdef
+  refine transform_terminates_accepted f0 d t hdef (fun r hr => ?_) u fuel hf1 hf2
+  obtain ⟨_, _, _, _, _, _, hsub⟩ := hall r hr
+  exact hsub
+
+/-- the fuel the driver runs uses with (`useFuel`) is enough -/
+theorem transform_terminates_driver_fuel (f0 : Nat) (d : Datum) (t : Transform)
+    (hdef : Transform.tryNew f0 d = .ok t) (u : Datum) : t.transform (useFuel d u) u ≠ .fuel := by
+  obtain ⟨s, _, _, hall⟩ := accepted_build hdef
+  refine transform_useFuel_terminates f0 d t hdef (fun r hr => ?_) u
+  obtain ⟨_, _, _, _, _, _, hsub⟩ := hall r hr
+  exact hsub
+
+example : ∃ t, Transform.tryNew (defFuel subDef) subDef = .ok t ∧
+    ∀ u, t.transform (useFuel subDef u) u ≠ .fuel :=
+  ⟨_, rfl, fun u => transform_terminates_driver_fuel (defFuel subDef) subDef _ rfl u⟩
+
+/-! ## T17.1 for every accepted transformer -/
+
+/-- **every transformer `try_new` accepts is in the class `DepthOne`**: `check_pattern_support`
+    rejects nested ellipses in patterns, `check_template_syntax` + `check_template_support` leave
+    exactly the templates of class `tP` (fix ff58560) — so ellipsis depth 2 (class 6 of T17.1) is
+    covered by the `err` disjunct of the property -/
+theorem accepted_depthOne (f0 : Nat) (d : Datum) (t : Transform)
+    (hdef : Transform.tryNew f0 d = .ok t) : DepthOne t = true := by
+  obtain ⟨s, hte, htl, hall⟩ := accepted_d1 hdef
+  simp only [DepthOne, ctxOf_eq s t hte htl, List.all_eq_true]
+  exact fun r hr => (hall r hr).2
+
+/-- **T17.1 for every transformer accepted by `try_new` and every use outside the known gap**:
+    an expansion is R7RS's — rule `i` matches per R7RS, no earlier rule does, and the expansion is the
+    instantiation of rule `i`'s template (or the spec answers `mismatch`: the excluded uses). The only
+    hypothesis besides acceptance is the decidable guard `GapFree` of known finding
+    `C17-empty-ellipsis-before-tail`; without it the statement is false (`soundness_fails_at_witness`). -/
+theorem soundness_gapfree_partial (f0 : Nat) (d : Datum) (t : Transform) (fuel : Nat) (u e : Datum)
+    (hdef : Transform.tryNew f0 d = .ok t)
+    (hgap : GapFree (ctxOf t) (specRules t) u = true)
+    (huse : t.transform fuel u = .ok e) :
+    ∃ s : Setup, t.ellipsis = s.ell ∧ t.literals = s.lits ∧ Sound s.ctx (specRules t) u e :=
+  soundness_depthOne_partial f0 d t fuel u e hdef (accepted_depthOne f0 d t hdef) hgap huse
+
+/-- the same with the excluded uses as an explicit hypothesis: the implementation's expansion is the
+    specification's expansion -/
+theorem soundness_gapfree_exact_partial (f0 : Nat) (d : Datum) (t : Transform) (fuel : Nat) (u e : Datum)
+    (hdef : Transform.tryNew f0 d = .ok t)
+    (hgap : GapFree (ctxOf t) (specRules t) u = true)
+    (hcounts : CountsAgree (ctxOf t) (specRules t) u = true)
+    (huse : t.transform fuel u = .ok e) :
+    specExpand (ctxOf t) (specRules t) u = .ok e :=
+  soundness_depthOne_exact_partial f0 d t fuel u e hdef (accepted_depthOne f0 d t hdef) hgap hcounts huse
+
+/-- `(define-syntax m (syntax-rules () ((_ (a b ...) ...) ((a b ...) ...))))`: ellipsis depth 2 -/
+def nestedDef : Datum :=
+  Datum.ofList [.sym ['d'], .sym ['m'], Datum.ofList [srSym, .nil,
+    Datum.ofList [Datum.ofList [.sym ['_'], Datum.ofList [.sym ['a'], .sym ['b'], defaultEllipsis], defaultEllipsis],
+                  Datum.ofList [Datum.ofList [.sym ['a'], .sym ['b'], defaultEllipsis], defaultEllipsis]]]]
+
+/-- `(define-syntax m (syntax-rules () ((_ (a ...) ...) (a ... ...))))` -/
+def nestedDef2 : Datum :=
+  Datum.ofList [.sym ['d'], .sym ['m'], Datum.ofList [srSym, .nil,
+    Datum.ofList [Datum.ofList [.sym ['_'], Datum.ofList [.sym ['a'], defaultEllipsis], defaultEllipsis],
+                  Datum.ofList [.sym ['a'], defaultEllipsis, defaultEllipsis]]]]
+
+/-- class 6 of T17.1 (nested ellipsis, depth 2) at two concrete definitions: rejected -/
+theorem definition_check_rejects_nested_ellipsis :
+    Transform.tryNew (defFuel nestedDef) nestedDef = .err .syntax ∧
+    Transform.tryNew (defFuel nestedDef2) nestedDef2 = .err .syntax := by
+  constructor <;> decide +kernel
+
+/-- `soundness_gapfree_partial` applies non-trivially: the two-rule transformer of the known finding,
+    on a use outside the gap -/
+example : ∃ t, Transform.tryNew (defFuel gapDef) gapDef = .ok t ∧
+    GapFree (ctxOf t) (specRules t) (Datum.ofList [.sym ['m'], n1, n2, n3]) = true ∧
+    CountsAgree (ctxOf t) (specRules t) (Datum.ofList [.sym ['m'], n1, n2, n3]) = true ∧
+    t.transform 100 (Datum.ofList [.sym ['m'], n1, n2, n3]) = .ok (Datum.ofList [n1, n2, n3]) ∧
+    GapFree (ctxOf t) (specRules t) gapUse = false :=
+  ⟨_, rfl, by decide +kernel, by decide +kernel, by decide +kernel, by decide +kernel⟩
 
 end Marwood.Proofs.C17
